@@ -511,7 +511,9 @@ func judgeC06(rep *lib.Report, c *lib.Ctx, ln *printerLine, res *realResult, kas
 			rep.Violate("printer:unsafe-not-enveloped", fmt.Sprintf("%s: output %q shows %q outside envelopes", desc, res.Out, got), kase)
 		}
 	}
-	if top.K == "safe" && !ownClassification(top.Xs[0]) {
+	if top.K == "safe" && !ownClassification(x) {
+		// x: the value under all directly nested wrappers; wrappers met deeper (struct fields, slices,
+		// reflect.Value) are overridden by the outermost Safe()
 		if lib.HasMarker(res.Out) {
 			rep.Violate("printer:safe-enveloped", fmt.Sprintf("%s: output %q has an envelope", desc, res.Out), kase)
 		}
@@ -521,7 +523,7 @@ func judgeC06(rep *lib.Report, c *lib.Ctx, ln *printerLine, res *realResult, kas
 	if len(ln.C.F) >= 3 {
 		verb = ln.C.F[len(ln.C.F)-3]
 	}
-	if fmtCompatible(top) && ln.C.E == "Sprintf" && verb != 'T' && verb != 'p' && (top.K == "unsafe" || !ownClassification(top.Xs[0])) {
+	if fmtCompatible(top) && ln.C.E == "Sprintf" && verb != 'T' && verb != 'p' && (top.K == "unsafe" || !(top.Xs[0].K == "safe" || top.Xs[0].K == "unsafe" || ownClassification(top.Xs[0]))) {
 		std := fmt.Sprintf(string(c.Subst(ln.C.F)), stripWrappers(c, top))
 		if got := lib.Strip(res.Out); !bytes.Equal(got, lib.EscapeAll([]byte(std))) {
 			rep.Violate("printer:wrapper-chars", fmt.Sprintf("%s: characters %q, fmt prints %q", desc, got, std), kase)
@@ -540,7 +542,9 @@ func stripWrappers(c *lib.Ctx, t *lib.Term) interface{} {
 // ownClassification: the value (or a part of it) declares a class itself.
 func ownClassification(t *lib.Term) bool {
 	switch t.K {
-	case "safe", "unsafe", "rstring", "rbytes":
+	case "safe", "unsafe":
+		return ownClassification(t.Xs[0]) // a nested wrapper is overridden by the outer one
+	case "rstring", "rbytes":
 		return true
 	case "obj":
 		for _, cp := range t.Caps {
